@@ -51,6 +51,7 @@ class Ctx:
                               sleep_jitter=self.knobs.get('sleep_jitter', 0.0),
                               trace_roots=seams.cflib_file_roots(),
                               max_steps=self.knobs.get('max_steps', 3_000_000),
+                              max_time=self.knobs.get('max_time', 3600.0),
                               keep_log=keep_log,
                               jitter_rng=random.Random(H(self.seed, 'jitter')))
         from world.faults import Faults
@@ -113,6 +114,21 @@ def cflib_site(tb_text):
             except Exception:
                 pass
     return site
+
+
+def hang_signature(verdict):
+    """For a 'deadlock'/'timeout' verdict: (signature fragment, message) naming where the main thread is stuck."""
+    kind, info = verdict
+    site = ''
+    for t in info or []:
+        if t['thread'] == 'main' or t['thread'].startswith('bounded:'):
+            s2 = cflib_site(t.get('stack', ''))
+            if s2:
+                site = s2
+                if t['thread'] == 'main':
+                    break
+    msg = '%s: threads %s' % (kind, [(t['thread'], t['waiting_on']) for t in (info or [])])
+    return ('%s @%s' % ('hang' if kind == 'timeout' else 'deadlock', site)), msg
 
 
 def execute_plan(check, plan, keep_log=False):
